@@ -201,6 +201,31 @@ def generate(rng, tier, pre):
                     if rng.random() < (0.15 if q else 0.5):
                         cases.append(("dec.aes_enc", [mode, "l:1:%d" % kl, "l:2:%d" % il, "l:3:%d" % dl]))
                         cases.append(("dec.aes_dec", [mode, "l:1:%d" % kl, "l:2:%d" % il, "l:3:%d" % dl]))
+    # 5b. compact signatures crafted so that public-key recovery lands on the point at infinity (s*R = z*G), for R of
+    #     both parities and both compression markers, through the digest and the message entry points; plus near misses
+    from . import _secp as S
+    import hashlib
+    for k in list(range(1, 9 if q else 40)) + [S.N - 1, S.N - 2]:
+        R = S.mul(k, S.G)
+        r = R[0] % S.N
+        for z in ([1, 2, 0x8000000000000000000000000000000000000000000000000000000000000001] if q else [1, 2, 3, S.N - 1, 2 ** 255 + 5]):
+            s_ = (z * pow(k, -1, S.N)) % S.N
+            if r == 0 or s_ == 0:
+                continue
+            for comp in (0, 4):
+                hdr = 27 + (R[1] & 1) + comp
+                sig = bytes([hdr]) + r.to_bytes(32, "big") + s_.to_bytes(32, "big")
+                cases.append(("dec.recover_digest2", [sig.hex(), z.to_bytes(32, "big").hex()]))
+                cases.append(("dec.recover_digest2", [(bytes([hdr ^ 1]) + sig[1:]).hex(), z.to_bytes(32, "big").hex()]))
+                cases.append(("dec.recover_digest2", [sig.hex(), ((z + 1) % S.N).to_bytes(32, "big").hex()]))
+        # the message form: z = sha256(msg) / sha256d(msg)
+        msg = b"identity-%d" % (k % 1000)
+        for dbl in (False, True):
+            z = int.from_bytes(hashlib.sha256(hashlib.sha256(msg).digest()).digest() if dbl else hashlib.sha256(msg).digest(), "big") % S.N
+            s_ = (z * pow(k, -1, S.N)) % S.N
+            if r and s_:
+                sig = bytes([27 + (R[1] & 1) + 4]) + r.to_bytes(32, "big") + s_.to_bytes(32, "big")
+                cases.append(("dec.recover_msg2", [sig.hex(), msg.hex()]))
     # 6. digests of every length 0..70
     for n in range(0, 71 if not q else 40):
         for dec in ("verify_hashbuf", "sign_digest", "recover_digest"):
